@@ -9,7 +9,8 @@ THEOREMS = ["C01_flat_types_exact", "C01_flatten_is_canonical", "C01_size_is_can
             "C01_field_offsets_are_canonical", "C01_payload_offset_is_canonical",
             "C01_memory_lowering_consumes_its_operand", "C01_lower_to_memory_never_panics",
             "C01_memory_lifting_produces_one_operand", "C01_lift_from_memory_never_panics",
-            "C01_flat_lowering_produces_flattened_count", "C01_lower_flat_canonical_count"]
+            "C01_flat_lowering_produces_flattened_count", "C01_lower_flat_canonical_count",
+            "C01_flat_lifting_consumes_flattened_count"]
 KINDS = ("lower_flat", "lower_to_memory", "lift_from_memory")
 
 
